@@ -96,6 +96,76 @@ def gen_history(rng, misc_ok=True, npre=None, nmut=None):
     return lines
 
 
+# ---- twin histories: the SAME post-dup history on the original and on the copy, compared step by step.
+# Only operations that create no object (object creation legitimately diverges through next_gp_index).
+TWIN_DIST_TYPES = [TPU, TCORE, TNUMA, TPACK]
+
+
+def gen_twin_history(rng):
+    """pre-dup history that leaves gaps in the ids of the distances matrices (a non-latest matrix removed by
+    handle / by depth, dropped by a restrict, or an add handle consumed without commit), dup, then identical
+    by-handle histories on both."""
+    lines = []
+    seeds = rng.sample(range(1, 60), 6)
+    names = []
+    nadd = rng.randint(1, 3)
+    for k in range(nadd):
+        ty = rng.choice(TWIN_DIST_TYPES)
+        lines.append("pre distadd %d %d %d 0 %d" % (ty, rng.choice([2, 2, 3, 4]), rng.choice([5, 6, 9, 10]), seeds[k]))
+        names.append(("hwv%d" % seeds[k], ty))
+        if rng.random() < 0.3:
+            lines.append("pre distfail")
+    # create the gap
+    for _ in range(rng.randint(0, 2)):
+        r = rng.random()
+        if r < 0.35 and len(names) > 1:
+            nm, _ty = names.pop(rng.randrange(len(names) - 1))      # not the latest
+            lines.append("pre disthandle %s 3" % nm)
+        elif r < 0.55 and names:
+            _nm, ty = names[0]
+            lines.append("pre distrmdepth %d" % ty)
+            names = [x for x in names if x[1] != ty]
+        elif r < 0.8:
+            lines.append("pre robj %d %d %d" % (rng.choice([TPU, TCORE, TPACK]), 0, 0))   # may leave <2 objects of a matrix
+            lines.append("pre refresh")
+        else:
+            lines.append("pre distfail")
+    if rng.random() < 0.3:
+        lines.append("pre " + rng.choice(["info 0 0 a b", "tinfo c d", "mreg foo 1", "kobj %d 0 1 k v" % TPU]))
+    lines.append("dup")
+    live = [n for n, _ in names]
+    for _ in range(rng.randint(2, 6)):
+        r = rng.random()
+        if r < 0.4:
+            s = seeds[3 + rng.randrange(3)] + 100 * rng.randint(0, 2)
+            lines.append("both distadd %d %d %d 0 %d" % (rng.choice(TWIN_DIST_TYPES), rng.choice([2, 2, 3, 4]), rng.choice([5, 6, 9, 10]), s))
+            live.append("hwv%d" % s)
+        elif r < 0.85 and live:
+            lines.append("both disthandle %s %d" % (rng.choice(live), rng.choice([0, 0, 1, 3])))
+        elif r < 0.92:
+            lines.append("both " + rng.choice(["info 0 0 e f", "tinfo g h", "mset 8 0 - 5", "refresh", "distfail"]))
+        else:
+            lines.append("both distrmdepth %d" % rng.choice(TWIN_DIST_TYPES))
+    first = rng.choice("AB")
+    lines += ["destroy " + first, "destroy " + ("B" if first == "A" else "A")]
+    return lines
+
+
+def twin_boundary_cases():
+    two = "src synthetic pack:2 [numa(memory=1024)] core:2 pu:2"
+    d = ["destroy A", "destroy B"]
+    post = ["both distadd 1004 4 5 0 3", "both disthandle hwv3 0", "both disthandle hwv2 0", "both disthandle hwv3 3", "both disthandle hwv2 1"]
+    return [
+        ("t:dense-ids", [two], ["pre distadd 1014 2 5 0 1", "pre distadd 1003 4 6 0 2", "dup"] + post + d),
+        ("t:gap-by-handle-remove", [two], ["pre distadd 1014 2 5 0 1", "pre distadd 1003 4 6 0 2", "pre disthandle hwv1 3", "dup"] + post + d),
+        ("t:gap-by-depth-remove", [two], ["pre distadd 1014 2 5 0 1", "pre distadd 1003 4 6 0 2", "pre distrmdepth 1014", "dup"] + post + d),
+        ("t:gap-by-restrict", [two], ["pre distadd 1001 2 5 0 1", "pre distadd 1003 4 6 0 2", "pre robj 1001 0 0", "pre refresh", "dup",
+                                      "both distadd 1004 2 5 0 3", "both disthandle hwv3 0", "both disthandle hwv2 0", "both disthandle hwv3 3"] + d),
+        ("t:gap-by-failed-add", [two], ["pre distfail", "pre distadd 1003 4 6 0 2", "dup"] + post + d),
+        ("t:all-removed-then-add", [two], ["pre distadd 1014 2 5 0 1", "pre distrm", "dup", "both distadd 1004 4 5 0 3", "both disthandle hwv3 0", "both disthandle hwv3 3"] + d),
+    ]
+
+
 # enumerated boundary scenarios: arrays that become empty, stale caches, every kind of attachment present
 def boundary_cases():
     two_numa = "src synthetic pack:2 [numa(memory=1024)] core:2 pu:2"
